@@ -284,6 +284,12 @@ def main():
             "extracted_tables": ext["tables"],
             "exhaustive": False,
             "spec_validated_against_standards": spec_oracle,
+            "obligation_kinds": {
+                "property_theorems": sum(len(cx.theorems_of(m)) for m in mods if "Tie" not in m.split(".")[-1] and "HwTest" not in m),
+                "translator_tie_theorems": sum(len(cx.theorems_of(m)) for m in mods if "Tie" in m.split(".")[-1]),
+                "intrinsic_hardware_vectors_module": sum(len(cx.theorems_of(m)) for m in mods if "HwTest" in m),
+                "note": "obligations = every named public theorem of the property's modules (statement theorems, their local corollaries and "
+                        "the source-to-model tie theorems); helper lemmas in Proofs/ are not counted"},
             "proof_scope": getattr(P, "PROOF_SCOPE", "complete for the modelled code: every clause of the property is a theorem about the models; "
                                    "the models are tied to the source by translator ties and the correspondence"),
             "discharged_hypotheses": cx.hypotheses_of(mods)[1],
